@@ -1328,24 +1328,28 @@ def _numpy(a, *args, **kw):
     return out
 
 
-@handler("zeros_like")
+def _like(a, value, kw):
+    dt = kw.get("dtype") or a.dtype
+    out = _obj(tuple(a.shape))
+    c = T.const_of(value, dt)
+    for idx in np.ndindex(*out.shape):
+        out[idx] = c
+    return mk(out, dt)
+
+
+@handler("zeros_like", "empty_like")
 def _zeros_like(a, **kw):
-    return torch.zeros(tuple(a.shape), dtype=kw.get("dtype") or a.dtype)
+    return _like(a, 0, kw)
 
 
 @handler("ones_like")
 def _ones_like(a, **kw):
-    return torch.ones(tuple(a.shape), dtype=kw.get("dtype") or a.dtype)
+    return _like(a, 1, kw)
 
 
 @handler("full_like")
 def _full_like(a, fill_value, **kw):
-    return torch.full(tuple(a.shape), fill_value, dtype=kw.get("dtype") or a.dtype)
-
-
-@handler("empty_like")
-def _empty_like(a, **kw):
-    return torch.zeros(tuple(a.shape), dtype=kw.get("dtype") or a.dtype)
+    return _like(a, fill_value, kw)
 
 
 @handler("new_zeros")
